@@ -29,11 +29,14 @@ func TestLocal(t *testing.T) {
 	nontriv := 0
 	hashes := map[string]bool{}
 	probes := map[string]int{}
-	for i := int64(0); i < n; i++ {
+	for i := envInt("VERIF_L_FIRST", 0); i < n; i++ {
 		p := Generate(prop, RunSeed(prop, envInt("VERIF_SEED", 1), i), "quick", os.Getenv("VERIF_FAMILY"))
 		res := Execute(t, p)
 		if res.Nontrivial {
 			nontriv++
+		}
+		if os.Getenv("VERIF_L_HASH") != "" {
+			t.Logf("seed %d hash %s events %d steps %d checks %d", res.Seed, res.LogHash, res.Events, res.Steps, res.Checks)
 		}
 		hashes[res.Sig] = true
 		for k, v := range res.Probes {
